@@ -182,6 +182,13 @@ def gen_cases(tier, seed):
             s['family'] = 'base-exception'
             s['plan'] = {'faults': [{'at': k, 'phase': 'before', 'kind': 'base', 'tag': f'FAULT-base-{bi}'}]}
             cases.append(s)
+            if not base.get('executor') and rng.random() < (0.5 if quick else 1.0):
+                # the same with everything inline in the caller's thread (NonThreadedExecutor): the exception travels up through the
+                # submission task there, which records it
+                s2 = copy.deepcopy(s)
+                s2['seed'] = rng.randrange(1 << 30)
+                s2['executor'] = 'nonthreaded'
+                cases.append(s2)
     if not quick:
         # real-constant family: 5 MiB parts, a fault in the middle part
         MB = 1024 * 1024
